@@ -142,3 +142,116 @@ Section C17Algorand.
       inversion Q'. congruence.
   Qed.
 End C17Algorand.
+
+(* ---------------------------------------------------------------- Electrum v1 *)
+From BU Require Import Model.ElectrumV1Mnemonic Lemmas.ElectrumV1Mnemonic.
+
+Definition ev1_encode := ElectrumV1Mnemonic.encode wl_ev1 ev1_entropy_bit_lens.
+Definition ev1_decode := ElectrumV1Mnemonic.decode wl_ev1 ev1_word_nums words_to_chunk.
+Definition ev1_decode_current := ElectrumV1Mnemonic.decode wl_ev1 ev1_word_nums words_to_chunk_current.
+
+Definition ev1_dec_enc :=
+  ElectrumV1Mnemonic.dec_enc wl_ev1 ev1_word_nums ev1_entropy_bit_lens
+    ev1_wl_nodup ev1_wl_pos ev1_wl_cube ev1_nums_eq ev1_ent_eq.
+Definition ev1_accepts_iff :=
+  ElectrumV1Mnemonic.accepts_iff wl_ev1 ev1_word_nums ev1_entropy_bit_lens
+    ev1_wl_nodup ev1_wl_pos ev1_wl_cube ev1_nums_eq ev1_ent_eq.
+Definition ev1_accepted_is_canonical :=
+  ElectrumV1Mnemonic.accepted_is_canonical wl_ev1 ev1_word_nums ev1_entropy_bit_lens
+    ev1_wl_nodup ev1_wl_pos ev1_wl_cube ev1_nums_eq ev1_ent_eq.
+Definition ev1_decode_err_family :=
+  ElectrumV1Mnemonic.decode_err_family wl_ev1 ev1_word_nums ev1_entropy_bit_lens
+    ev1_wl_nodup ev1_wl_pos ev1_wl_cube ev1_nums_eq ev1_ent_eq.
+
+(* ---------------------------------------------------------------- Electrum v2 *)
+From BU Require Import Base.Radix Model.ElectrumV2Mnemonic Lemmas.ElectrumV2Mnemonic Lemmas.MnemConstsOkEv2.
+From BU Require Import Gen.WlMnem_B39_english.
+
+Definition ev2_gate_current := ElectrumV2Mnemonic.gate_current ev2_word_bit_len ev2_entropy_bit_lens.
+Definition ev2_gate_conformant := ElectrumV2Mnemonic.gate_conformant ev2_word_bit_len ev2_entropy_bit_lens.
+(* ElectrumV1MnemonicValidator().IsValid through the conformant / current Electrum v1 decoder *)
+Definition ev1_valid (conformant : bool) (ws : list (list N)) : bool :=
+  match (if conformant then ev1_decode else ev1_decode_current) ws with inl _ => true | inr _ => false end.
+
+Lemma ev2_enc_langs_ok wl : In wl ev2_langs -> NoDup wl /\ wl_len wl = 2048.
+Proof. intros I. exact (b39_langs_ok wl (ev2_langs_in_b39 wl I)). Qed.
+
+Lemma ev2_b39_langs_ok wl : In wl b39_langs -> NoDup wl /\ wl_len wl = 2048.
+Proof. exact (b39_langs_ok wl). Qed.
+
+Section C17Ev2.
+  Variable hmac : list N -> list N -> list N.
+  Variable bip39_valid : list (list N) -> bool.
+  Variable ev1v : list (list N) -> bool.
+
+  Definition ev2_is_valid :=
+    ElectrumV2Mnemonic.is_valid_mnemonic ev2_type_prefixes ev2_hmac_key hmac bip39_valid ev1v.
+  Definition ev2_encode gate :=
+    ElectrumV2Mnemonic.encode ev2_langs ev2_type_prefixes ev2_hmac_key hmac bip39_valid ev1v gate.
+  Definition ev2_decode :=
+    ElectrumV2Mnemonic.decode b39_langs ev2_langs ev2_word_nums ev2_type_prefixes ev2_hmac_key hmac bip39_valid ev1v.
+  Definition ev2_from_entropy gate :=
+    ElectrumV2Mnemonic.from_entropy ev2_langs ev2_type_prefixes ev2_hmac_key ev2_max_attempts hmac bip39_valid ev1v gate.
+  Definition ev2_attempts gate :=
+    ElectrumV2Mnemonic.attempts ev2_langs ev2_type_prefixes ev2_hmac_key ev2_max_attempts hmac bip39_valid ev1v gate.
+
+  Definition ev2_dec_enc :=
+    ElectrumV2Mnemonic.dec_enc b39_langs ev2_langs ev2_word_nums ev2_word_bit_len ev2_type_prefixes ev2_hmac_key
+      ev2_entropy_bit_lens ev2_max_attempts hmac bip39_valid ev1v
+      ev2_nums_eq ev2_wbl_eq ev2_ent_eq ev2_enc_langs_ok ev2_b39_langs_ok ev2_langs_first.
+  Definition ev2_gate_band_words :=
+    ElectrumV2Mnemonic.gate_band_words b39_langs ev2_langs ev2_word_nums ev2_word_bit_len ev2_type_prefixes ev2_hmac_key
+      ev2_entropy_bit_lens ev2_max_attempts hmac bip39_valid ev1v
+      ev2_nums_eq ev2_wbl_eq ev2_ent_eq ev2_enc_langs_ok ev2_b39_langs_ok ev2_langs_first.
+  Definition ev2_accepted_partial :=
+    ElectrumV2Mnemonic.accepted_partial b39_langs ev2_langs ev2_word_nums ev2_word_bit_len ev2_type_prefixes ev2_hmac_key
+      ev2_entropy_bit_lens ev2_max_attempts hmac bip39_valid ev1v
+      ev2_nums_eq ev2_wbl_eq ev2_ent_eq ev2_enc_langs_ok ev2_b39_langs_ok ev2_langs_first.
+  Definition ev2_top_zero_not_canonical :=
+    ElectrumV2Mnemonic.top_zero_not_canonical b39_langs ev2_langs ev2_word_nums ev2_word_bit_len ev2_type_prefixes ev2_hmac_key
+      ev2_entropy_bit_lens ev2_max_attempts hmac bip39_valid ev1v
+      ev2_nums_eq ev2_wbl_eq ev2_ent_eq ev2_enc_langs_ok ev2_b39_langs_ok ev2_langs_first.
+  Definition ev2_accepts_iff :=
+    ElectrumV2Mnemonic.accepts_iff b39_langs ev2_langs ev2_word_nums ev2_word_bit_len ev2_type_prefixes ev2_hmac_key
+      ev2_entropy_bit_lens ev2_max_attempts hmac bip39_valid ev1v
+      ev2_nums_eq ev2_wbl_eq ev2_ent_eq ev2_enc_langs_ok ev2_b39_langs_ok ev2_langs_first.
+  Definition ev2_attempts_spec :=
+    ElectrumV2Mnemonic.attempts_spec b39_langs ev2_langs ev2_word_nums ev2_word_bit_len ev2_type_prefixes ev2_hmac_key
+      ev2_entropy_bit_lens ev2_max_attempts hmac bip39_valid ev1v
+      ev2_nums_eq ev2_wbl_eq ev2_ent_eq ev2_enc_langs_ok ev2_b39_langs_ok ev2_langs_first.
+End C17Ev2.
+
+Definition ev2_gate_current_iff := gate_current_iff ev2_word_bit_len ev2_entropy_bit_lens ev2_wbl_eq ev2_ent_eq.
+Definition ev2_gate_conformant_iff := gate_conformant_iff ev2_word_bit_len ev2_entropy_bit_lens ev2_wbl_eq ev2_ent_eq.
+Definition ev2_gate_diff := gate_diff ev2_word_bit_len ev2_entropy_bit_lens ev2_wbl_eq ev2_ent_eq.
+
+Lemma ev2_gate_witness :
+  ev2_gate_current (2 ^ 132) = true /\ ev2_gate_conformant (2 ^ 132) = false /\
+  length (to_le 2048 (2 ^ 132)) = 13%nat /\ be_to_int (16 :: repeat 0 16) = 2 ^ 132.
+Proof. repeat split; vm_compute; reflexivity. Qed.
+
+(* big-endian bytes without a leading zero byte are what ToBytes gives back *)
+Lemma int_to_be_auto_stripped b x t : bytes_ok b -> b = x :: t -> x <> 0 -> int_to_be_auto (be_to_int b) = b.
+Proof.
+  intros Hb E Hx.
+  assert (Hs : forall y u, b = y :: u -> y <> 0) by (intros y u E'; rewrite E in E'; inversion E'; subst; assumption).
+  pose proof (int_to_be_min_of_stripped b Hb Hs) as M. unfold int_to_be_min, to_be in M.
+  unfold int_to_be_auto, int_to_be_fixed, int_to_le_fixed, get_bytes_number.
+  assert (Hl : (1 <= length (to_le 256 (be_to_int b)))%nat).
+  { destruct (to_le 256 (be_to_int b)) as [|d ds] eqn:Q; [|simpl; lia].
+    simpl in M. rewrite <- M in E. discriminate. }
+  replace (Nat.max 1 (length (to_le 256 (be_to_int b)))) with (length (to_le 256 (be_to_int b))) by lia.
+  rewrite Nat.leb_refl, Nat.sub_diag. simpl. rewrite app_nil_r. exact M.
+Qed.
+
+(* the premises of the Electrum v2 canonicity statements are satisfiable: with an HMAC whose hex digest starts
+   with "01" every phrase is of the standard type *)
+Lemma ev2_top_zero_example :
+  let hmac := fun (_ _ : list N) => [1] in
+  let none := fun (_ : list (list N)) => false in
+  let zoo := nth 2047 wl_b39_english [] in
+  let abandon := nth 0 wl_b39_english [] in
+  exists b, ev2_decode hmac none none (Some 0%nat) (Some 1%nat) (repeat zoo 11 ++ [abandon]) = Ok b /\
+            word_idx wl_b39_english (last (repeat zoo 11 ++ [abandon]) []) = Ok 0 /\
+            nth_error ev2_langs 1 = Some wl_b39_english.
+Proof. cbv zeta. eexists. split; [vm_compute; reflexivity|]. split; [vm_compute; reflexivity|reflexivity]. Qed.
